@@ -22,6 +22,7 @@ RULE = ('(a) Hypothesis: documents with listed macros (unknown names, \\input, \
         '(b) all inclusion graphs over up to 3 files with up to 2 ordered \\input/\\include entries per file (with/without .tex, self-inclusion, cycles, duplicates, duplicate root files) x --skip patterns; '
         'oracle: reference breadth-first work list (each file once, in discovery order, without skipped files; terminates). '
         'non-trivial = (a) a listed macro inside a hidden context next to a visible one, or a listed macro with optional arguments before/after its first mandatory one; (b) a graph with a cycle or a duplicate; distinct by case')
+RULE += ' Additions: \\def macros whose body calls two listed macros; scanned files show \\input / \\include inside lstlisting, tikzpicture and skip regions (not followed).'
 ASSUMPTIONS = [
     'occurrences inside arguments of declared macros that are not listed are not generated (extraction mode empties every declared macro by design; README restricts the option to predefined macros)',
     'a listed macro inside the extracted argument of another listed macro is not generated (the statement does not fix the relative order)',
